@@ -342,7 +342,7 @@ _reg("C16", c16.run, translator=("T1", "T16"), module="NirVerif.Properties.C16Ge
      level_note="Lean kernel; hand-written models of to_dict/from_dict/write/read and of the h5py contract (create_dataset conversions, item[()], link names, iteration order), validated against the real library and real files on every run.")
 _reg("C17", c17.run, translator=("T1", "T16"), module="NirVerif.Properties.C17Generated",
      theorems=["NirVerif.C17.pure", "NirVerif.C17.pure_history", "NirVerif.C17.read_deterministic",
-               "NirVerif.C17.observers_generated", "NirVerif.C17.no_shared_state_generated"],
+               "NirVerif.C17.observers_generated", "NirVerif.C17.no_shared_state_generated", "NirVerif.C17.no_hooks_generated"],
      rule="Graphs of the C01 domain under sequences of 1-6 observers (to_dict, write to BytesIO / path, type check, inputs, "
           "outputs), a quarter of them made to fail (unwritable, uncopyable, ragged or None metadata values; inconsistent "
           "types): deep snapshot (bytes of every array, ids of nodes and containers) before and after every call; pairs "
